@@ -322,7 +322,7 @@ func c12PickString(r *Rng, pool []string, enc string, input string) string {
 	return "x"
 }
 
-var c12Ints = []string{"0", "1", "-1", "7", "42", "-100", "255", "65536", "2147483648", "9007199254740993", "9223372036854775807", "-9223372036854775807"}
+var c12Ints = []string{"0", "1", "-1", "7", "42", "-100", "255", "65536", "2147483648", "9007199254740993", "9223372036854775807", "-9223372036854775807", "-9223372036854775808"}
 var c12BigInts = []string{"9223372036854775808", "18446744073709551615", "18446744073709551616", "-9223372036854775809", "123456789012345678901234567890", "-340282366920938463463374607431768211456"}
 var c12Floats = []string{"0.5", "-1.25", "3.0", "0.1", "1.5e+10", "2.5e-07", "100.0", "-0.75", "6.02e+23", "1.0e-10"}
 var c12PreciseFloats = []string{"0.12345678901234567890123", "1.00000000000000000001", "3.141592653589793238462643383279"}
@@ -532,7 +532,6 @@ func c12GenCase(r *Rng, id int, focus bool) *c12Case {
 		f := Pick(r, []feat{
 			{"toml-null-dropped", nil},
 			{"toml-int-beyond-int64-as-string", json.Number(Pick(r, c12BigInts))},
-			{"toml-min-int64-as-string", json.Number("-9223372036854775808")},
 			{"toml-float-rounded-to-float64", json.Number(Pick(r, c12PreciseFloats))},
 			{"toml-float-beyond-float64", json.Number(Pick(r, c12HugeFloats))},
 		})
@@ -571,7 +570,7 @@ func c12Witnesses(rn *c12Runner) {
 		"cue export accepts the invalid TOML document `a.b = 1 / [a] / c = 2` (witness of C12_toml_sem_false)", map[string]any{"stdout": c12Trunc(w.stdout)})
 	// 2. the stale *openTableArray
 	w = run("w2.toml", "[[a.b]]\n[[a]]\n[[a]]\n", "export", "w2.toml")
-	c.Direct(!bytes.Contains(w.stderr, []byte("panic:")), "toml-decoder-panic-stale-array-pointer",
+	c.Direct(!bytes.Contains(w.stderr, []byte("panic:")), "toml-decoder-panic",
 		"cue export panics (nil pointer dereference in encoding/toml.Decoder.nextRootNode) on `[[a.b]] / [[a]] / [[a]]`", map[string]any{"stderr": c12Trunc(w.stderr)})
 	// 3. date and time values import as validated strings and export as strings
 	w = run("w3.toml", "a = 1979-05-27T07:32:00Z\nb = 1979-05-27\nc = 07:32:00\nd = 1979-05-27T07:32:00\n", "import", "-f", "w3.toml")
